@@ -288,7 +288,14 @@ def check(ctx):
                 srcs = [canon(e) for e in elts]
                 params = set(fn.params)
                 rest = [e for e in elts if canon(e) != recv]
-                ok = recv in srcs and srcs[0] == recv and len(rest) == 1 and bool({n.id for n in ast.walk(rest[0]) if isinstance(n, ast.Name)} & params)
+                core = rest[0] if len(rest) == 1 else None
+                if core is not None and base.attr == "s2" and match_square(core) is not None:
+                    core = match_square(core)
+                while isinstance(core, ast.Call) and call_name(core) in ("np.atleast_2d", "np.atleast_1d", "np.array", "np.asarray") and core.args:
+                    core = core.args[0]
+                if core is not None and base.attr == "s2" and match_square(core) is not None:
+                    core = match_square(core)
+                ok = recv in srcs and srcs[0] == recv and isinstance(core, ast.Name) and core.id in params
                 why = "incremental add: old rows first, then a parameter"
             elif isinstance(v, ast.Subscript) and canon(store_base(v)) == recv:
                 ok, why = True, "row filtering of itself"
